@@ -477,6 +477,58 @@ func main() {
 		}
 	}
 	b.WriteString(strings.Join(rows, ",\n"))
+	// number-keyed versions (names as numbers, see nameKeyInt): (type, field, resolved tag number), same order as fieldTable
+	b.WriteString("\n]\n\ndef fieldTableK : List (Nat × Nat × Nat) := [\n")
+	rows = nil
+	for _, n := range names {
+		for _, f := range byName[n].fields {
+			rows = append(rows, fmt.Sprintf("  (%s, %s, 0x%06x)", nameKeyInt(n).String(), nameKeyInt(f.goName).String(), f.tag))
+		}
+	}
+	b.WriteString(strings.Join(rows, ",\n"))
+	// holders: under which tags a struct type's items are placed: its own struct tag (top-level use), the tag of every
+	// field whose type is (a slice of) the struct, and the tag of every dynamic field that dispatches to it
+	b.WriteString("\n]\n\n/-- (struct type, tag number under which values of the type are written): own Tag, holder fields, dynamic holders -/\ndef holders : List (String × String × Nat) := [\n")
+	type hold struct {
+		typ, via string
+		tag      uint32
+	}
+	var hs []hold
+	for _, n := range names {
+		ti := byName[n]
+		if ti.tagName != "" {
+			hs = append(hs, hold{n, "own Tag", ti.tag})
+		}
+		for _, f := range ti.fields {
+			ft := f.goType
+			if ft.Kind() == reflect.Slice && ft != tBytes {
+				ft = ft.Elem()
+			}
+			if sub, ok := byRType[ft]; ok && ft.Kind() == reflect.Struct {
+				hs = append(hs, hold{sub.name, n + "." + f.goName, f.tag})
+			}
+			if f.dynamic && f.tagOK {
+				_, _, deps, _ := probeDispatch(ti, &f)
+				seen := map[string]bool{}
+				for _, dname := range deps {
+					if !seen[dname] {
+						seen[dname] = true
+						hs = append(hs, hold{dname, n + "." + f.goName + " (dynamic)", f.tag})
+					}
+				}
+			}
+		}
+	}
+	sort.SliceStable(hs, func(i, j int) bool { return hs[i].typ < hs[j].typ })
+	rows = nil
+	var holdRowsK []string
+	for _, h := range hs {
+		rows = append(rows, fmt.Sprintf("  (%s, %s, 0x%06x)", leanStr(h.typ), leanStr(h.via), h.tag))
+		holdRowsK = append(holdRowsK, fmt.Sprintf("  (%s, 0x%06x)", nameKeyInt(h.typ).String(), h.tag))
+	}
+	b.WriteString(strings.Join(rows, ",\n"))
+	b.WriteString("\n]\n\ndef holdersK : List (Nat × Nat) := [\n")
+	b.WriteString(strings.Join(holdRowsK, ",\n"))
 	fmt.Fprintf(&b, "\n]\n\ndef numTypes : Nat := %d\ndef numFields : Nat := %d\n\nend KmipGen\n", len(names), nf)
 	writeIfChanged(filepath.Join(*out, "Schema.lean"), b.String())
 
